@@ -140,6 +140,7 @@ func execSeq(t *testing.T, plan *Plan, h seqHooks) *Outcome {
 					continue
 				}
 				before := e.engine.Catalog()
+				commitsBefore := len(e.commits)
 				now := time.Now().Add(e.sim.WallOffset())
 				c := a.exec(op)
 				after := e.engine.Catalog()
@@ -173,10 +174,15 @@ func execSeq(t *testing.T, plan *Plan, h seqHooks) *Outcome {
 					if classifyErr(c.Err) == "store-fault" {
 						// the call itself was fine but persisting failed: nothing may be visible (C02/C05);
 						// the model does not apply it
-						if catalogDump(before, true) != catalogDump(after, true) {
+						ref := before
+						if n := len(e.commits); n > commitsBefore {
+							// somebody else (an expiry pass) committed while the call was under way
+							ref = e.commits[n-1].Cat
+						}
+						if catalogDump(ref, true) != catalogDump(after, true) {
 							v := violation("C02", "visible-after-failed-store", op.K, fmt.Sprintf("%s failed in the store but changed the visible state", opStr(op)))
 							// the same damage in the vocabulary of the property under test
-							bl, al := oplogOf(before), oplogOf(after)
+							bl, al := oplogOf(ref), oplogOf(after)
 							switch {
 							case h.prop == "C08" && (len(al) != len(bl) || (len(al) > 0 && !model.Same(al[len(al)-1], bl[len(bl)-1]))):
 								v = violation("C08", "event-for-failed-call", op.K, fmt.Sprintf("%s failed in the store but the change log differs afterwards (%d events before, %d after)", opStr(op), len(bl), len(al)))
@@ -205,6 +211,14 @@ func execSeq(t *testing.T, plan *Plan, h seqHooks) *Outcome {
 						work := st.Clone()
 						var mismatch *Violation
 						for _, sub := range c.Subs {
+							if isIndexOp(sub.Op.K) && sub.Op.K != "listIndexes" && (sub.Err != nil || sub.Res.Err != "") {
+								// index management inside a session transaction: whether it is accepted is not
+								// decided here (lungo refuses it as a nested transaction, MongoDB accepts some
+								// cases). A refused call has no effect - the model skips it and the comparison of
+								// the committed state decides; an accepted one must do what the model does
+								e.probe("index-call-in-transaction-refused")
+								continue
+							}
 							w := applyModel(work, sub.Op, &sub.Res, now, nil)
 							if d := diffRes(sub.Op.K, w, sub.Res); d != "" && mismatch == nil {
 								mismatch = attribute(h.prop, "result-mismatch", sub.Op, w, sub.Res, fmt.Sprintf("inside a transaction, %s: %s (impl error: %v)", opStr(sub.Op), d, sub.Err))
